@@ -473,6 +473,8 @@ def record_server_trace(tid, cfg, wire, pieces, script=(), mode="delegate"):
                 if run.conn.closed():
                     return
                 if act == "eof":
+                    if run.conn.stream.in_eof:
+                        continue
                     run.eof()
                 elif act == "respond":
                     if not run.rec.waiting:
